@@ -1021,7 +1021,11 @@ func partTransform(d *driver, thorough bool) e1Result {
 		noteState(canonHash(s0))
 		frontier := [][]Op{{}}
 		states := 1
-		for depth := 1; depth <= maxDepth && len(frontier) > 0; depth++ {
+		seedDepth := maxDepth
+		if strings.Contains(seed0.seedName(), "+mirror(q)") && seedDepth > 2 {
+			seedDepth = 2 // the two-package mirrors have a 3x larger alphabet: depth 2 in both tiers
+		}
+		for depth := 1; depth <= seedDepth && len(frontier) > 0; depth++ {
 			results := make([][]succ, len(frontier))
 			parallel(len(frontier), func(i int) {
 				if d.timedOut.Load() || timeUp(d) {
@@ -1095,7 +1099,7 @@ func partTransform(d *driver, thorough bool) e1Result {
 		if res.fixpoint {
 			res.bound = "transform: fixpoint reached (holds for sequences of any length)"
 		} else {
-			res.bound = fmt.Sprintf("transform: all sequences of length <= %d", maxDepth)
+			res.bound = fmt.Sprintf("transform: all sequences of length <= %d (<= 2 from the two-package mirror seeds)", maxDepth)
 		}
 	}
 	samples.Add(map[string]any{"part": "transform", "case": "seed=case ops=" + seqString(alphabet(allSeeds()[2].Build())[:3])})
